@@ -3,14 +3,17 @@ routing x failover).  Growth of the specification (DESIGN.md section 16); not in
 
 
 def register(PROPS, HARNESS_PKGS):
-    def sim(ep, num, depth):
-        return {"module": "Olla", "cfg": "Olla_sim.cfg", "params": {"EP": ep, "MaxLen": depth},
+    ALL = '{"up", "relist", "health", "req", "list"}'
+    HB = '{"up", "health", "req"}'   # walks focused on the health breaker: three failed rounds in a row open it
+
+    def sim(ep, num, depth, ops=ALL):
+        return {"module": "Olla", "cfg": "Olla_sim.cfg", "params": {"EP": ep, "MaxLen": depth, "Ops": ops},
                 "simulate": {"num": num, "depth": 4 * depth}}
     part = {
         "name": "system",
         "mc": [{"module": "Olla", "cfg": "Olla_mc.cfg"}],
-        "quick": {"gen": [sim('{"e1", "e2"}', 250, 9), sim('{"e1", "e2", "e3"}', 150, 11)]},
-        "thorough": {"gen": [sim('{"e1", "e2"}', 2500, 12), sim('{"e1", "e2", "e3"}', 2500, 16)]},
+        "quick": {"gen": [sim('{"e1", "e2"}', 250, 9), sim('{"e1", "e2", "e3"}', 150, 11), sim('{"e1", "e2"}', 100, 12, HB)]},
+        "thorough": {"gen": [sim('{"e1", "e2"}', 2500, 12), sim('{"e1", "e2", "e3"}', 2500, 16), sim('{"e1", "e2"}', 1500, 14, HB)]},
         "pkg": "internal/app", "test": "TestVerif_Olla",
         "harness_files": ["stack_test.go", "dispatch_test.go", "headers_test.go", "olla_test.go"],
         "trace": {"module": "OllaTrace", "cfg": "Olla_trace.cfg", "deque": True},
@@ -22,6 +25,6 @@ def register(PROPS, HARNESS_PKGS):
                 "through the assembled server; statuses, catalogue, contacted backends and answers validated by "
                 "OllaTrace. Non-trivial = at least two requests and a change of the world.",
         "exhaustive": False,
-        "assumptions": ["default configuration: strict model routing, unified registry, sherpa engine; the balancer (round-robin, priority, least-connections) and the endpoints' priorities are scenario constants"],
+        "assumptions": ["default configuration: strict model routing, unified registry; the engine (sherpa, olla: fewer failures per endpoint than its breaker's threshold), the balancer (round-robin, priority, least-connections) and the endpoints' priorities are scenario constants"],
         "parts": [part],
     }
